@@ -37,6 +37,9 @@ const (
 	ReqChanLen                         // addr = channel
 	ReqChanBlockForever                // operation on a nil channel
 	ReqChanMake                        // addr = channel: forget stale state
+	ReqTimerNew                        // val = *TimerSpec; n = delay ns; reply.n = timer id
+	ReqTimerStop                       // n = id; reply.n = 1 if it was active
+	ReqTimerReset                      // n = id, addr = delay ns; reply.n = 1 if it was active
 )
 
 // Sync operation kinds (request.n of a ReqSync), used for statistics only.
@@ -90,6 +93,10 @@ var (
 	syncCount [NumOps]int64
 
 	callsDoneAll int64
+
+	// timers the library created outside any run (package initialisers)
+	pendingTimers [64]*TimerSpec
+	pendingTN     int
 
 	// goroutines the library started outside any run (package initialisers,
 	// lazily started helpers that outlive a run): adopted by the next run
@@ -379,3 +386,29 @@ func MapKeys[M ~map[K]V, K cmp.Ordered, V any](m M) []K {
 	}
 	return keys
 }
+
+// TimerSpec describes a simulated timer (time.NewTimer/After/AfterFunc/NewTicker).
+type TimerSpec struct {
+	Delay  int64   // ns until the first firing
+	Period int64   // > 0: ticker
+	Ch     uintptr // channel identity to send the time on (0 for AfterFunc)
+	ChCap  int
+	Fn     func() // AfterFunc body
+	ID     int64  // assigned by the scheduler
+	When   int64  // absolute simulated ns of the next firing
+	Active bool
+}
+
+// NewTimerOutsideRun registers a timer created while no run is in progress
+// (package initialisation); the next run adopts it.
+//
+//go:norace
+func NewTimerOutsideRun(ts *TimerSpec) {
+	if pendingTN < len(pendingTimers) {
+		pendingTimers[pendingTN] = ts
+		pendingTN++
+	}
+}
+
+// Unmanaged reports whether this process has no scheduler at all.
+func Unmanaged() bool { return unmanaged }
